@@ -886,6 +886,56 @@ func (c *Ctx) runValueOf() {
 		c.R.Undecided("UNSAT-U8", "kinds", "(vertex kinds)", "-", err.Error())
 		return
 	}
+	// the Value a converter generator is shown for a vertex (func(graph.Vertex) *Value): built by the vertex's own
+	// value() or, field by field, from the asserted vertex — its Value field included
+	for _, g := range p.ArgFuncs() {
+		if g.Parent() != nil || len(g.Params) != 1 || g.Signature.Recv() != nil || g.Signature.Results().Len() != 1 {
+			continue
+		}
+		if !strings.HasSuffix(core.TypeStr(g.Params[0].Type()), "graph.Vertex") || core.TypeStr(g.Signature.Results().At(0).Type()) != "*Value" {
+			continue
+		}
+		c.R.Func(core.FuncName(g))
+		bad, nl := "", 0
+		for _, r := range core.Returns(g) {
+			for _, sv := range core.Sources(r.Results[0]) {
+				if core.IsNilConst(sv) {
+					continue
+				}
+				nl++
+				switch x := sv.(type) {
+				case *ssa.Alloc:
+					hasV := false
+					for _, ref := range *x.Referrers() {
+						if fa, ok := ref.(*ssa.FieldAddr); ok {
+							if fr, _ := core.AsFieldAddr(fa); fr.Field == "Value" {
+								for _, r2 := range *fa.Referrers() {
+									if sto, ok := r2.(*ssa.Store); ok && sto.Addr == ssa.Value(fa) {
+										if src, ok := core.AsFieldLoad(sto.Val); ok && src.Field == "Value" && kinds.Label(src.Owner) && len(core.Guards(sto.Block())) <= len(core.Guards(x.Block())) {
+											hasV = true
+										}
+									}
+								}
+							}
+						}
+					}
+					if !hasV {
+						bad = "the Value built at " + p.InstrPos(x) + " does not carry the vertex's value"
+					}
+				case *ssa.Call:
+					if !(x.Common().IsInvoke() && x.Common().Method.Name() == p.ValuerMethodName()) {
+						if cal := x.Common().StaticCallee(); cal == nil || cal.Name() != p.ValuerMethodName() {
+							bad = "returns " + core.Path(sv)
+						}
+					}
+				default:
+					bad = "returns " + core.Path(sv)
+				}
+			}
+		}
+		c.R.Add("UNSAT-U8", core.FuncName(g)+"|generator-value-carries-the-vertex-value", core.FuncName(g), p.Pos(g.Pos()), bad == "" && nl > 0,
+			"the Value shown to converter generators for a vertex carries that vertex's value, for named and type-only values alike", ternary(bad == "", fmt.Sprintf("%d form(s)", nl), bad))
+	}
 	for _, k := range kinds.All {
 		if !kinds.Label(k) {
 			continue
@@ -912,12 +962,25 @@ func (c *Ctx) runValueOf() {
 		st, _ := core.StructOf(recv.Type())
 		bad := ""
 		n := 0
+		carriesValue, condValue := false, ""
 		for _, ref := range *lit.Referrers() {
 			fa, ok := ref.(*ssa.FieldAddr)
 			if !ok {
 				continue
 			}
 			fr, _ := core.AsFieldAddr(fa)
+			if fr.Field == "Value" {
+				// the vertex's value is carried over too, whatever it is (an unset or zero value included)
+				for _, r2 := range *fa.Referrers() {
+					if sto, ok := r2.(*ssa.Store); ok && sto.Addr == ssa.Value(fa) {
+						carriesValue = true
+						if gs := core.Guards(sto.Block()); len(gs) > 0 {
+							condValue = core.LitOf(gs[0].Cond, gs[0].Pol).String()
+						}
+					}
+				}
+				continue
+			}
 			if fr.Field != "Name" && fr.Field != "Type" && fr.Field != "Subtype" {
 				continue
 			}
@@ -962,6 +1025,9 @@ func (c *Ctx) runValueOf() {
 		if bad == "" && n < want {
 			bad = fmt.Sprintf("only %d of the kind's %d label fields are carried over", n, want)
 		}
+		c.R.Add("UNSAT-U8", k+"|value-carries-the-vertex-value", core.FuncName(m), p.Pos(m.Pos()), carriesValue && condValue == "",
+			"the Value reported for a vertex carries the vertex's own value unconditionally (a zero or unset value is reported as it is)",
+			ternary(carriesValue && condValue == "", "copied unconditionally", ternary(!carriesValue, "the Value field is not set", "copied only under "+condValue)))
 		c.R.Add("UNSAT-U8", k+"|value-carries-own-labels", core.FuncName(m), p.Pos(m.Pos()), bad == "",
 			"the Value reported for a vertex (missing arguments, direct inputs, what the input filter sees) carries that vertex's own name, type and subtype",
 			ternary(bad == "", fmt.Sprintf("%d label field(s) copied from the same-named vertex field", n), bad))
